@@ -3,10 +3,16 @@ import random
 import gridlib as gl
 
 
+# recorded input of the known finding (weights-times-values differs from evaluate while a parent of a promoted point is missing)
+KNOWN_INPUT = ("SCEN kf4 80\nmake localp 2 1 3 1 localp-boundary 2 -1 3\nbegin\ncandl -1 -1 classic 0\nloadpool 1 5 352343 1\n"
+               "candl 0 -1 fds 0\nloadpool 2 0 2531 1\nfinish\n")
+
+
 def run(ctx):
     rnd = random.Random(ctx.seed + 404)
     n = 160 if ctx.quick else 1000
     scens = [gl.history(rnd, "q%d" % i, steps=rnd.randint(3, 8), with_construct=True, with_transform=True, with_coef=True) for i in range(n)]
+    scens.append(KNOWN_INPUT)
     gl.run_grid(ctx, [("routes", scens), ("mixed", gl.mixed_family(rnd, max(40, n // 5)))], gl.OBS_NODAL | gl.OBS_ROUTES, "C04")
     ctx.assume("identities are judged by observer bits at 1e-9..1e-10 relative tolerance on 33 probe points per state (nodes, interior)")
 
